@@ -1,6 +1,7 @@
 """Per-property configuration of ./check: Lean modules holding the theorems,
 correspondence streams (harness component + options + budgets), monitors."""
 import re
+import monitors
 
 TRUSTED_BASE = [
     "Lean 4.33.0 kernel; axioms allowed: propext, Classical.choice, Quot.sound (audited per theorem on every run)",
@@ -37,7 +38,84 @@ def store_streams(q, t, prefix="store"):
 
 NOT_YET = {}
 
+def pool_streams(q, t, gen="pool", prefix="pool"):
+    return [
+        {"name": prefix + "-memory", "component": "pool", "gen": gen, "opts": {"driver": "memory"}, "cases": {"quick": q, "thorough": t}},
+        {"name": prefix + "-badger", "component": "pool", "gen": gen, "opts": {"driver": "badger"}, "cases": {"quick": q, "thorough": t}},
+    ]
+
+
+POOL_NOTE = ("Theorems are about Model/Pool.lean + Model/Balance.lean + Model/Store.lean; their tie to pool/service.go, "
+             "pool/balance/perinterval.go, pool/payment/service.go and both store drivers is differential (sampled, op by op, "
+             "state dumped after operations). Signature validity enters the model as a boolean (ideal signature scheme, see C04); "
+             "clock readings are the ones the implementation used (read back / injected through the verif hook).")
+
 PROPS = {
+    "C01": {
+        "level_text": "Zero-sum is a Lean theorem over the pool model for every operation (ledger_step), every history (ledger_history, ledger_from_empty) with any configuration, clock readings, peer reports, fault pattern of the per-peer credit calls, and for every interleaving of balanced balance-call threads (ledger_all_schedules). The model is compared with the real pool on both store drivers after every operation, the ledger being read back through Stats and every balance.",
+        "level_note": POOL_NOTE + " Concurrency: atomicity of each store method (mutex / badger transaction) is assumed; the badger driver's ErrConflict under concurrent writers is outside the atomic-step model (see DESIGN.md).",
+        "lean_modules": ["Vipnode.Props.C01"],
+        "streams": pool_streams(100, 1000) + pool_streams(120, 1500, gen="pool-money", prefix="money"),
+        "monitor": monitors.c01_ledger,
+    },
+    "C02": {
+        "level_text": "Billing arithmetic (floor(elapsed*price/interval) per active peer, client debited the exact sum, hosts/zero elapsed/empty peer set move nothing, slicing bounds for every schedule and unbounded prices, consecutive keep-alives bill consecutive disjoint intervals) are Lean theorems over the balance-manager and pool models; the models are compared with the real code (manager clock injected) on both drivers.",
+        "level_note": POOL_NOTE,
+        "lean_modules": ["Vipnode.Props.C02"],
+        "streams": pool_streams(60, 600) + pool_streams(150, 2000, gen="pool-billing", prefix="billing"),
+    },
+    "C03": {
+        "level_text": "The minimum-balance decision logic is stated outright in both directions (connect_refused_iff, update_cutoff_iff, hosts_never_refused, cutoff_disconnects) as Lean theorems over the balance-manager and pool models, which are compared with the real code on both drivers, with deposits injected through the contract proxy.",
+        "level_note": POOL_NOTE,
+        "lean_modules": ["Vipnode.Props.C03"],
+        "streams": pool_streams(60, 600) + pool_streams(150, 2000, gen="pool-minbal", prefix="minbal"),
+    },
+    "C04": {
+        "level_text": "Over an ideal signature scheme (laws as hypotheses, satisfiable: toyScheme), the signed payload determines method, identity, nonce and parameters (payload_injective, with the bracket-freeness of every registered RPC name re-proved by `decide` on names regenerated from the method registry), so any alteration or foreign key is refused (altered_is_refused, other_key_refused), honest requests are accepted (honest_accepted) and every signed endpoint of the pool model changes state only for a request signed by the identity it names (endpoint_acts_only_if_signed). The implementation is driven with real keys and real signatures: valid requests plus single-component alterations on every signed endpoint, state dumped after each.",
+        "level_note": POOL_NOTE + " Modelled rather than verified: ECDSA/Keccak/EIP-191 (ideal scheme) and the injectivity of encoding/json on the request types (ArrayEncoder hypothesis, sampled by the per-field alteration stream).",
+        "lean_modules": ["Vipnode.Props.C04"],
+        "streams": pool_streams(60, 600) + pool_streams(150, 1500, gen="pool-nonce", prefix="auth"),
+        "monitor": monitors.c06_refused_no_effect,
+    },
+    "C05": {
+        "level_text": "Strictly increasing accepted nonces per identity and at-most-once acceptance for every history (accepted_strictly_increasing, at_most_once, replay_rejected), rejection of stale nonces, independence of identities, at most one accepted copy under every schedule of optimistic transactions (racing_duplicates) and unobservability of the badger TTL for every history (ttl_safe) are Lean theorems about the nonce table model; the model is compared with both drivers at store level and through signed RPCs, and concurrent duplicates / TTL expiry are exercised on the real drivers.",
+        "level_note": "Theorems are about Store.checkAndSaveNonce, the optimistic-transaction model txStep and the expiring table model; tie: store and pool correspondence streams (sampled), concurrent duplicate submissions on both drivers, a real TTL expiry run. Trusted: badger conflict detection and TTL implementation.",
+        "lean_modules": ["Vipnode.Props.C05"],
+        "streams": store_streams(150, 1500) + pool_streams(100, 1000, gen="pool-nonce", prefix="nonce"),
+    },
+    "C06": {
+        "level_text": "refused_no_effect: for every endpoint of the pool and payment models and every state, a request failing authentication returns the pool state unchanged (all components, including the nonce table and the host registry) and calls no host; victim_not_burned(+_payment): the owner's next verification is unaffected by a forgery. The implementation is driven with every refusal kind interleaved in valid sessions, the full state dumped after each.",
+        "level_note": POOL_NOTE,
+        "lean_modules": ["Vipnode.Props.C06"],
+        "streams": pool_streams(80, 800) + pool_streams(150, 1500, gen="pool-nonce", prefix="refused"),
+        "monitor": monitors.c06_refused_no_effect,
+    },
+    "C07": {
+        "level_text": "withdraw_exact, withdraw_refused_or_failed_no_effect, withdraw_conserves, never_twice and racing_withdrawals (any sequence of attempts — the service serialises withdrawals) are Lean theorems about Pool.Withdraw including the settlement handler's effect on the deposit; compared with the real PaymentService over a scripted settlement handler and deposit oracle on both drivers.",
+        "level_note": POOL_NOTE + " The on-chain contract is a parameter (settlement outcome ok/fail, deposit set to the new balance on success).",
+        "lean_modules": ["Vipnode.Props.C07"],
+        "streams": pool_streams(150, 2000, gen="pool-money", prefix="money"),
+        "monitor": monitors.c07_withdraw,
+    },
+    "C08": {
+        "level_text": "reply_hosts_eligible, reply_count, whitelist_calls_bounded, error_iff_empty, full_supply, failed_hosts_left_out are Lean theorems about Pool.requestHosts for every store state, every store choice, every outcome of every whitelist call; the store's choice is validated against the ActiveHosts contract (C12) on every implementation call. The real pool is driven over fake host connections scripted to acknowledge, fail or hang.",
+        "level_note": POOL_NOTE + " The order in which acknowledgements arrive is not modelled (replies are compared as sets); the 5 s whitelist timeout is exercised with a shorter request deadline.",
+        "lean_modules": ["Vipnode.Props.C08"],
+        "streams": pool_streams(60, 600) + pool_streams(150, 1500, gen="pool-peers", prefix="peers"),
+        "monitor": monitors.c08_peer_reply,
+    },
+    "C09": {
+        "level_text": "callable_iff: after every history of registrations and closes the registry lets the pool call host h on connection c exactly when h's most recent registration was on c and c was not closed since; close_old_keeps_new, closed_not_callable, requests_use_current_registration, numRemotes_eq. Compared with the real registry (connect over distinct connection objects, CloseRemote, NumRemotes, which connection receives vipnode_whitelist).",
+        "level_note": POOL_NOTE + " Registry steps are atomic (pool mutex); a close racing an in-flight request is covered by requests_use_current_registration for requests that start after the close.",
+        "lean_modules": ["Vipnode.Props.C09"],
+        "streams": pool_streams(150, 1500, gen="pool-peers", prefix="registry"),
+    },
+    "C11": {
+        "level_text": "invalid_iff, active_after, live_never_invalid, self_report_never_invalid, unknown_never_tracked, duplicates_idempotent, pool_reply_maps and the well-formedness invariant peersWF_reachable are Lean theorems about Store.updateNodePeers and the keep-alive reply; compared with both drivers at store level and through the pool.",
+        "level_note": POOL_NOTE,
+        "lean_modules": ["Vipnode.Props.C11"],
+        "streams": store_streams(150, 1500) + pool_streams(120, 1500, gen="pool-expiry", prefix="expiry"),
+    },
     "C12": {
         "level_text": "Contract clauses (unregistered = error, balances follow the wallet, trial migrated exactly once and shared, active-host query contract, statistics = true counts, ledger effect of every operation, well-formedness of every reachable store) are Lean theorems about the executable reference model of the documented store contract, for all states and arguments; both drivers are compared with that model op by op on generated histories, so a driver that deviates from the other deviates from the model.",
         "level_note": "Theorems are about Model/Store.lean; its tie to memory.go/badger.go is differential (sampled). Trusted: badger transaction atomicity, gob round-trip, the harness's clock bracketing.",
